@@ -225,6 +225,8 @@ func init() {
 			"scale-escape-classes": {"main", `{%j= odd %}{%q= odd %}{%h= odd %}{%a= odd %}{%u= odd %}{%l= odd %}{%J= odd %}{%c= odd %}{%jj= odd %}{%= odd|jsonEscape|htmlEscape %}` +
 				`{% jsonquote %}{%= odd %}{% endjsonquote %}{% htmlescape %}{%= odd %}{% endhtmlescape %}{% urlencode %}{%= odd %}{% endurlencode %}{% for _, v := range lst sep , %}{%q= odd %}{% endfor %}`},
 			"scale-include":   {"sub", `{% for i:=0; i<400; i++ %}<li>item {%= i %} of the list</li>{% endfor %}`, "main", `head{% include sub %}mid{% include sub %}tail`},
+			// an include whose output is far above any "small buffer" threshold (64 KiB, 1 MiB): the writers of includes are kept
+			"scale-include-big": {"sub", `{% for i:=0; i<6000; i++ %}<li>item number {%= i %} of the rather long list of items that fills the page</li>{% endfor %}`, "main", `head{% include sub %}mid{% include sub %}{% include sub %}{% include sub %}tail`},
 			"scale-include-2": {"sub2", `{%= big %}{%h= big %}`, "sub1", `[{% include sub2 %}]`, "main", `{% for i:=0; i<3; i++ %}{% include sub1 %}{% endfor %}`},
 			"scale-regions":   {"main", `{% htmlescape %}{%= big %}{% jsonquote %}{%= big %}{% endjsonquote %}{% endhtmlescape %}{% urlencode %}{%= big %}{% endurlencode %}`},
 			"scale-mods":      {"main", `{%= big|htmlEscape|jsonQuote %}{%u= big %}{%jj= big %}{%a= big %}{%c= big %}{%J= big %}{%l= big %}`},
